@@ -5,6 +5,7 @@ import (
 	"testing"
 	"time"
 	_ "time/tzdata"
+	"unsafe"
 
 	otp "github.com/ja7ad/otp"
 	"pgregory.net/rapid"
@@ -60,7 +61,23 @@ func instant(unix int64, nsec int, zone int, mono bool) (time.Time, bool) {
 			}
 		}
 	}
-	return target.In(zones[zone%len(zones)]), hasMono
+	if hasMono {
+		// Time.In would strip the monotonic reading: carry it, with the zone set through the forged representation
+		if ft, okk := forgeMono(unix, nsec, monoOf(target), zones[zone%len(zones)]); okk {
+			return ft, true
+		}
+		return target, true // Local zone, reading kept
+	}
+	return target.In(zones[zone%len(zones)]), false
+}
+
+// monoOf reads the monotonic clock reading of a time.Time (0 if it has none).
+func monoOf(t time.Time) int64 {
+	r := (*timeRepr)(unsafe.Pointer(&t))
+	if r.wall>>63 == 0 {
+		return 0
+	}
+	return r.ext
 }
 
 func checkC02(c c02Case) verdict {
